@@ -98,6 +98,23 @@ pub fn check_localize_text(segs: &[&'static str], codes: &[u8], style: u8) {
         assert!(pb.build() == want);
     }
 }
+/// (d) through `localize_path` with a table of two routes per locale: there (`docs` localized) and back is the
+/// original normalised text
+pub fn check_table_round_trip(segs: &[&'static str], codes: &[u8]) {
+    let cut = codes.len() / 2;
+    let table_a: Vec<Vec<PathSegment>> = vec![codes[..cut].iter().map(|c| route_seg(*c)).collect(),
+                                               codes[cut..].iter().map(|c| route_seg(*c)).collect()];
+    let table_b: Vec<Vec<PathSegment>> = vec![codes[..cut].iter().map(|c| localized(*c)).collect(),
+                                               codes[cut..].iter().map(|c| localized(*c)).collect()];
+    let text = if segs.is_empty() { "/".to_owned() } else { format!("/{}", segs.join("/")) };
+    let mut pb = PathBuilder::new();
+    if localize_path(&text, &table_a, &table_b, &mut pb).is_some() {
+        let there = pb.build();
+        let mut pb2 = PathBuilder::new();
+        assert!(localize_path(&there, &table_b, &table_a, &mut pb2).is_some());
+        assert!(pb2.build() == text);
+    }
+}
 pub fn check_round_trip(segs: &[&'static str], codes: &[u8]) {
     let route_a: Vec<PathSegment> = codes.iter().map(|c| route_seg(*c)).collect();
     let route_b: Vec<PathSegment> = codes.iter().map(|c| localized(*c)).collect();
@@ -136,6 +153,7 @@ mod native {
         let r = panic::catch_unwind(move || {
             if check == "identity_rewrite" { check_identity(&segs, &codes) }
             else if check == "there_and_back" { check_round_trip(&segs, &codes) }
+            else if check == "table_round_trip" { check_table_round_trip(&segs, &codes) }
             else { let k = codes.len() - 1; check_localize_text(&segs, &codes[..k], codes[k]) }
         });
         r.map_err(|e| e.downcast_ref::<String>().cloned()
@@ -167,7 +185,7 @@ mod native {
         let max_n: usize = std::env::var("C14SEG_MAX_N").ok().and_then(|v| v.parse().ok()).unwrap_or(3);
         let max_m: usize = std::env::var("C14SEG_MAX_M").ok().and_then(|v| v.parse().ok()).unwrap_or(3);
         let mut failed = false;
-        for check in ["identity_rewrite", "there_and_back", "localize_text"] {
+        for check in ["identity_rewrite", "there_and_back", "localize_text", "table_round_trip"] {
             let mut cases = 0u64;
             let mut first: Option<(Vec<usize>, Vec<u8>, String)> = None;
             for n in 0..=max_n { for m in 0..=max_m {
